@@ -1,7 +1,7 @@
 (* C10  Literal and constant values match the compiler on each platform.
    Statements only; every proof is `exact <lemma>`. *)
 From CV Require Import Base.Bytes Lit.Defs Lit.Spec Lit.Platform Lit.TokenValue Lit.Gen_Platforms Lit.PlatformProofs
-  Lit.Proofs Lit.IntTheorems Lit.CharTheorems Lit.ValueTheorems.
+  Lit.Proofs Lit.IntTheorems Lit.CharTheorems Lit.CharExt Lit.ValueTheorems.
 Local Open Scope N_scope.
 
 (* SPEC-EQ: every integer literal of the grammar (any base, any suffix, any number of digits) whose
@@ -53,6 +53,15 @@ Theorem C10_char_literal_value body vs : c_chars body vs -> vs <> [] ->
 Proof. exact (narrow_char_literal body vs). Qed.
 Print Assumptions C10_char_literal_value.
 
+(* the same over the extended grammar: source characters, simple escapes, octal escapes (1-3 digits),
+   hexadecimal escapes (any number of digits) and universal character names \uXXXX / \UXXXXXXXX, any number
+   of c-chars, with the maximal-munch side conditions of the grammar; the numeric values go through the
+   strtoull model of stringToULLbounded *)
+Theorem C10_char_literal_value_ext body vs : c_chars_ext body vs -> vs <> [] ->
+  char_literal_to_ll (39 :: body ++ [39]) = Some (narrow_char_value vs).
+Proof. exact (narrow_char_literal_ext body vs). Qed.
+Print Assumptions C10_char_literal_value_ext.
+
 (* u8'x' u'x' U'x' L'x' for an ASCII character or simple escape: the character's value *)
 Theorem C10_prefixed_char_literal_value pre sp v : c_char sp v -> v < 128 ->
   pre = [117; 56] \/ pre = [117] \/ pre = [85] \/ pre = [76] ->
@@ -88,6 +97,25 @@ Theorem C10_token_char_count_octal_escape ds :
   token_char_count (39 :: 92 :: ds ++ [39]) = Some 1.
 Proof. exact (token_char_count_octal_escape ds). Qed.
 Print Assumptions C10_token_char_count_octal_escape.
+
+(* ... for any c-char of the extended grammar that Token::isCChar counts as one character, and in
+   particular for every octal escape *)
+Theorem C10_char_token_value_platform_ext p cpp sp v :
+  c_char_ext 39 sp v -> p_char_bit p = 8 -> (p_sign p = 115 \/ p_sign p = 117) ->
+  token_char_count (39 :: sp ++ [39]) = Some 1 ->
+  char_literal_to_ll (39 :: sp ++ [39]) = Some (sext_spec 8 v) /\
+  char_token_value p cpp 1 (sext_spec 8 v) = char_value_on p v.
+Proof. exact (char_token_value_platform_ext p cpp sp v). Qed.
+Print Assumptions C10_char_token_value_platform_ext.
+
+Theorem C10_char_token_value_platform_octal p cpp cs ds :
+  digit_seq 8 cs ds -> (1 <= length cs <= 3)%nat -> value_of_digits 8 ds < 256 ->
+  p_char_bit p = 8 -> (p_sign p = 115 \/ p_sign p = 117) ->
+  char_literal_to_ll (39 :: (92 :: cs) ++ [39]) = Some (sext_spec 8 (value_of_digits 8 ds)) /\
+  token_char_count (39 :: 92 :: cs ++ [39]) = Some 1 /\
+  char_token_value p cpp 1 (sext_spec 8 (value_of_digits 8 ds)) = char_value_on p (value_of_digits 8 ds).
+Proof. exact (char_token_value_platform_octal p cpp cs ds). Qed.
+Print Assumptions C10_char_token_value_platform_octal.
 
 (* every entry of the table regenerated from Platform::set and platforms/*.xml is well-formed
    (finite statement: the table is rewritten from the source on every run) *)
@@ -150,5 +178,25 @@ Example C10_ex_octal_escape_arm32 :
   char_literal_to_ll [39; 92; 51; 55; 55; 39] = Some (-1)%Z /\
   char_token_value plat_arm32_wchar_t4 false 1 (-1) = char_value_on plat_arm32_wchar_t4 255.   (* '\377' *)
 Proof. exact octal_escape_char_token_now. Qed.
+Example C10_ex_chars_ext : c_chars_ext [92;51;55;55;92;120;52;49] [255;65].        (* \377\x41 *)
+Proof.
+  apply (CEs_cons [92;51;55;55] 255 [92;120;52;49] [65]).
+  - apply (CE_oct _ [51;55;55] [3;7;7]).
+    + apply (DS_cons 8 51 3); [apply (DC_dec 8 3); lia|]. apply (DS_cons 8 55 7); [apply (DC_dec 8 7); lia|].
+      apply (DS_cons 8 55 7); [apply (DC_dec 8 7); lia | constructor].
+    + cbn; lia.
+    + intros Hlt; cbn in Hlt; lia.
+    + vm_compute; reflexivity.
+  - apply (CEs_cons [92;120;52;49] 65 [] []); [|constructor].
+    apply (CE_hex _ [52;49] [4;1]).
+    + apply (DS_cons 16 52 4); [apply (DC_dec 16 4); lia|]. apply (DS_cons 16 49 1); [apply (DC_dec 16 1); lia | constructor].
+    + discriminate.
+    + intros d Hd. unfold next_char in Hd. apply digit_char_range in Hd; lia.
+    + cbn; discriminate.
+    + cbn; discriminate.
+    + vm_compute; reflexivity.
+Qed.
+Example C10_ex_chars_ext_value : char_literal_to_ll [39;92;51;55;55;92;120;52;49;39] = Some 65345%Z.   (* 0xff41 *)
+Proof. vm_compute. reflexivity. Qed.
 Example C10_ex_platform : exists p, In p Gen_platforms /\ platform_sane p = true.
 Proof. exists plat_unix64. split; [vm_compute; tauto | vm_compute; reflexivity]. Qed.
